@@ -113,7 +113,7 @@ impl TraitImpl for Zeroize {
 		data: &Data,
 	) -> TokenStream {
 		if data.is_empty(**trait_) {
-			TokenStream::new()
+			empty_arm(data)
 		} else {
 			match data.simple_type() {
 				SimpleType::Struct(fields) | SimpleType::Tuple(fields) => {
@@ -141,5 +141,18 @@ impl TraitImpl for Zeroize {
 				SimpleType::Union => unreachable!("unexpected trait for union"),
 			}
 		}
+	}
+}
+
+/// `match` arm doing nothing, for a variant without any field to zeroize. This
+/// keeps the `match` over an enum exhaustive.
+pub(super) fn empty_arm(data: &Data) -> TokenStream {
+	let path = &data.path;
+
+	match data.simple_type() {
+		SimpleType::Struct(_) => quote! { #path { .. } => { } },
+		SimpleType::Tuple(_) => quote! { #path(..) => { } },
+		SimpleType::Unit(pattern) => quote! { #pattern => { } },
+		SimpleType::Union => unreachable!("unexpected trait for union"),
 	}
 }
